@@ -480,7 +480,9 @@ fn draw_params(w: &mut World, key: &str, default_src: InstallSource) -> RequestP
             InstallSource::ScheduledTask => InstallSource::OnDemand,
         };
     }
-    if w.draws.chance(&format!("{key}/params.dis"), vary / 2) {
+    if w.profile.policy.params_no_disable {
+        p.disable_updates = w.server.mock_disable_updates;
+    } else if w.draws.chance(&format!("{key}/params.dis"), vary / 2) {
         p.disable_updates = true;
     }
     if w.draws.chance(&format!("{key}/params.same"), vary / 2) {
